@@ -16,7 +16,10 @@
   falsifier  harness/chan/history.c: the same job in different process histories (fresh process; other instances created,
              used, deleted before and in between — also with larger FFT sizes and other engines; partial streams,
              flushes, input-function failures followed by soxr_clear; clear twice; pull mode across clear) must print
-             identical H lines (output hashes per channel, counts, delay bits, clips, error, log of every call); after
+             identical H lines (output hashes per channel, counts, delay bits, clips, error, log of every call); a
+             first-instance matrix: every probe engine kind after every kind of FIRST instance of the process (VR up-only /
+             unity / one / several octaves down, other datatypes, other gain; CR small / large DFT, float / double, linear /
+             non-linear phase, cubic; created only / used / deleted; SIMD and portable engines) vs the fresh process; after
              clear the struct must be memcmp-equal field by field to a newly created twin (`structcmp`).
 """
 import os
@@ -103,6 +106,12 @@ def gen_case(rng, ctx):
         pre += l
         if v and first is None:
             first = m
+    if vr and rng.chance(.6):
+        # a VR instance with the SAME mult but another ratio class comes first: nothing may change (F6 does not apply)
+        kv0 = dict(kv); kv0["ir"], kv0["or"] = rng.choice([(1, 2), (1, 1), (11, 5), (40, 1), (3, 1), (2, 3)]); kv0["ch"] = 1
+        pre = ["new V0 " + cl.kvline(kv0)] + (["V0 limit 500", "V0 oneshot 500 %d" % (500 * int(kv0["or"]) // int(kv0["ir"]) + 200)] if rng.chance(.5) else []) \
+              + (["del V0"] if rng.chance(.3) else []) + pre
+        first = vr_mult(kv0)
     hs.append(("others-before", pre + [newx] + jobx, first))
     # clear after partial traffic (and a twin for structcmp)
     # an input function registered before the clear stays registered (by design): only for jobs that register their own
@@ -218,6 +227,57 @@ def pinned_mixed_pairs(ctx):
                     ctx.violation("output after soxr_clear differs from a fresh resampler (datatypes %d -> %d, %s):\n %s\n %s" % (it & 3, ot & 3, label, h, h0),
                                   {"harness": "chan/history.c", "stdin": lines, "reference_stdin": fresh})
     ctx.cov["pinned_mixed_datatype_clear_runs"] = n
+
+
+PROBES = [("vr-up", "recipe=4 qflags=32 ir=1 or=2", ""), ("vr-down1", "recipe=4 qflags=32 ir=96000 or=44100", ""),
+          ("vr-down3", "recipe=4 qflags=32 ir=9 or=1", ""), ("vr-slew", "recipe=4 qflags=32 ir=2 or=1", "X ratio 0.8 500"),
+          ("cr-hq", "recipe=4 ir=44100 or=48000", ""), ("cr-vhq", "recipe=6 ir=3 or=2", ""), ("cr-lq", "recipe=1 ir=2 or=1", ""),
+          ("cr-qq", "recipe=0 ir=3 or=1", ""), ("cr-minphase", "recipe=4 phase=0 ir=2 or=1", ""), ("cr-lsr", "recipe=8 ir=48000 or=44100", "")]
+# what came FIRST in the process, along every axis process-wide state could depend on
+FIRSTS = [("vr-up-only", "recipe=4 qflags=32 ir=1 or=2", 1.0), ("vr-unity", "recipe=4 qflags=32 ir=1 or=1", 1.0),
+          ("vr-down-1-octave", "recipe=4 qflags=32 ir=11 or=5", 1.0), ("vr-down-many-octaves", "recipe=4 qflags=32 ir=40 or=1", 1.0),
+          ("vr-int16-same-mult", "recipe=4 qflags=32 ir=3 or=1 itype=3 otype=3", 1.0), ("vr-other-mult", "recipe=4 qflags=32 ir=2 or=1 scale=3", 3.0),
+          ("cr-small-dft", "recipe=1 ir=2 or=1", None), ("cr-large-dft-double", "recipe=6 ir=44100 or=48000", None),
+          ("cr-float", "recipe=4 ir=3 or=2", None), ("cr-double-flag", "recipe=4 qflags=16 ir=3 or=2", None),
+          ("cr-nonlinear-phase", "recipe=4 phase=0 ir=48000 or=44100", None), ("cr-qq", "recipe=0 ir=5 or=1", None)]
+USAGES = [("created-only", []), ("used", ["A limit 800", "A oneshot 800 4000"]), ("used-deleted", ["A limit 800", "A oneshot 800 4000", "del A"])]
+
+
+def first_instance_matrix(ctx):
+    """Every probe engine kind after every kind of FIRST instance (VR: up-sampling only / unity / one octave / several octaves
+    down, other datatypes, other gain; CR: small / large DFT, float / double, linear / non-linear phase, cubic), the first
+    instance merely created, used, or used and deleted; SIMD and portable (fft4g cache) engines: hash of every channel,
+    counts, delay bits, clips and the call log must equal the probe in a fresh process.  The only listed exception is F6
+    (VR probe, first VR instance of the process had another mult)."""
+    exe = cl.exe_history()
+    active = {f["id"] for f in common.known_active(PID)}
+    common_kv = "ch=2 itype=0 otype=0 ioflags=8 amp=0.6 sigseed=3 threads=1"
+    n = same = 0
+    for simd in (None, 0):
+        for pname, pcfg, extra in PROBES:
+            job = ["X limit 4000", "X feed 1500 900 0"] + ([extra] if extra else []) + ["X feed 2500 6000 1", "X drain 700", "X hash"]
+            newx = "new X %s %s" % (pcfg, common_kv)
+            h0 = hline(run_history(exe, [newx] + job, simd)[1])
+            probe_vr = "qflags=32" in pcfg
+            for fname, fcfg, fmult in FIRSTS:
+                usages = USAGES
+                for uname, ulines in usages:
+                    kv = fcfg if "itype" in fcfg else fcfg + " itype=0 otype=0"
+                    lines = ["new A %s ch=1 ioflags=8 amp=0.5 threads=1" % kv] + ulines + [newx] + job
+                    h = hline(run_history(exe, lines, simd)[1])
+                    n += 1
+                    ctx.hist("matrix_first", fname); ctx.hist("matrix_probe", pname)
+                    if h is not None and h == h0:
+                        same += 1
+                        continue
+                    if probe_vr and fmult is not None and fmult != 1.0 and "F6" in active and h is not None:
+                        ctx.known("F6", "VR probe after a first VR instance with another gain (mult %g, own 1): output differs from the fresh process" % fmult)
+                        continue
+                    ctx.violation("probe `%s` after first instance `%s` (%s)%s differs from the same probe in a fresh process:\n %s\n %s"
+                                  % (pname, fname, uname, " [SOXR_USE_SIMD=0]" if simd == 0 else "", h, h0),
+                                  {"harness": "chan/history.c", "stdin": lines, "reference_stdin": [newx] + job, "SOXR_USE_SIMD": simd})
+    ctx.cov["first_instance_matrix"] = {"runs": n, "identical": same, "probes": len(PROBES), "first_kinds": len(FIRSTS)}
+    ctx.count("histories", n)
 
 
 def replay_F6(ctx):
@@ -375,6 +435,7 @@ def run(ctx):
         broken.append("driver soxr_chan was not built")
     nviol = falsifier(ctx, 80 if ctx.quick else 2500)
     pinned_mixed_pairs(ctx)
+    first_instance_matrix(ctx)
     replay_F6(ctx)
     replay_F18(ctx)
     if mismatch:
@@ -387,7 +448,7 @@ def run(ctx):
     ctx.cov["rule"] = ("falsifier: random probe job (engine/recipe/rates/datatypes/layout/scale, push|pull|one-shot schedule) run in 5 process "
                        "histories (fresh; other instances before, also large-DFT and VR ones; clear after partial stream / flush / input-function "
                        "failure + struct memcmp against a new twin; clear twice with other instances between; other instances between the job's "
-                       "calls): H lines (per-channel output hashes, counts, delay bits, clips, error, call log) must be identical.  tie: "
+                       "calls) + the first-instance matrix (probe kinds x kinds of first instance x usage x SIMD/portable): H lines (per-channel output hashes, counts, delay bits, clips, error, call log) must be identical.  tie: "
                        "generated member lists of struct soxr / soxr_clear / soxr_set_input_fn / soxr_create / initialise vs the model's (decide); "
                        "`fields` of the real struct vs the compiled model after create / set_input_fn / traffic / clear on random histories incl. "
                        "0-channel and unconfigured objects and LSR recipes")
